@@ -57,16 +57,39 @@ def check(repo: Repo, rep: Report) -> None:
     rep.ob("I1-immediate", sa, "absolute = relative(duetime - now)", ok, "schedule_absolute does not convert to the remaining delay")
     # Timeout
     for mname in ("schedule", "schedule_relative"):
-        m = repo.fn(TO, f"TimeoutScheduler.{mname}")
+        m0 = repo.fn(TO, f"TimeoutScheduler.{mname}")
+        m = m0
         timers = [s for s in sites(m) if isinstance(s.node, ast.Call) and call_name(s.node) == "Timer"]
+        passed = None
+        if not timers:
+            # the timer may live in a shared helper method: `return self._helper(delay, action, state)`
+            for s in sites(m0):
+                if isinstance(s.node, ast.Return) and isinstance(s.node.value, ast.Call) and isinstance(s.node.value.func, ast.Attribute) \
+                        and dotted(s.node.value.func.value) == "self" and not s.ctx.branch:
+                    h = repo.opt_fn(TO, f"TimeoutScheduler.{s.node.value.func.attr}")
+                    if h is not None and h is not m0:
+                        ht = [x for x in sites(h) if isinstance(x.node, ast.Call) and call_name(x.node) == "Timer"]
+                        if len(ht) == 1:
+                            m, timers, passed = h, ht, s.node.value
         rep.require(len(timers) == 1, f"Timer in TimeoutScheduler.{mname}")
         t = timers[0]
         delay = u(t.node.args[0])
-        if mname == "schedule":
-            ok = delay == "0"
+        if passed is not None:
+            # map the helper's delay parameter back to the argument of the delegating call
+            hp = [p_ for p_ in m.params if p_ != "self"]
+            delay_arg = u(passed.args[hp.index(delay)]) if delay in hp and hp.index(delay) < len(passed.args) else "?"
         else:
-            d = [s for s in sites(m) if isinstance(s.node, ast.Assign) and u(s.node.targets[0]) == delay]
-            ok = bool(d) and u(d[0].node.value) == f"self.to_seconds({m.params[1]})"
+            delay_arg = delay
+        if mname == "schedule":
+            ok = delay_arg == "0"
+        else:
+            d = [s for s in sites(m0) if isinstance(s.node, ast.Assign) and u(s.node.targets[0]) == delay_arg]
+            ok = bool(d) and u(d[0].node.value) == f"self.to_seconds({m0.params[1]})"
+        # the timer is per-call state: a TimeoutScheduler is a process-wide singleton
+        shared = isinstance(t.stmt, ast.Assign) and dotted(t.stmt.targets[0]) is not None and dotted(t.stmt.targets[0]).startswith("self.")
+        rep.ob("T1-timeout", m, f"{mname}: the Timer is held in a local of the call, not on the scheduler", not shared,
+               "the pending Timer is stored on the TimeoutScheduler instance, which is a process-wide singleton: disposing one schedule "
+               "cancels the most recently started timer, the disposed action still fires and an unrelated one is cancelled")
         rep.ob("T1-timeout", m, f"{mname}: Timer({delay}, interval)", ok, "the timer delay is not the requested relative time in seconds: the action can run early")
         cb = resolve_callable(m, t.node.args[1])
         ok = cb.kind == "fn" and any(isinstance(s.node, ast.Assign) and u(s.node.value) == f"self.invoke_action({m.params[-2]}, {m.params[-1]})" for s in sites(cb.fn))
